@@ -45,7 +45,7 @@ fn tags(max: usize) -> impl Strategy<Value = Vec<MOp>> {
     proptest::collection::vec((100i64..10_000).prop_map(PUSH), 0..=max)
 }
 
-fn jump_case() -> impl Strategy<Value = ExecCase> {
+pub fn jump_case() -> impl Strategy<Value = ExecCase> {
     (tags(4), tags(6), 0u8..12, prop_oneof![5 => Just(1i64), 3 => Just(0i64), 1 => Just(2i64), 1 => Just(-1i64)], any::<bool>())
         .prop_map(|(pre, post, dk, cond, halt_in_suffix)| {
             let pos = pre.len() as i64 + 2; // index of the JMPIF
